@@ -328,6 +328,10 @@ pub fn run_check(ctx: &Ctx, replay: Option<&str>, only: Option<&str>) -> i32 {
     let wall = t0.elapsed().as_secs_f64();
     let mut ev = evidence_json(ctx, &def, &results, &known_lines, wall);
     ev["coverage"]["regression_cases_replayed"] = json!(replayed);
+    let hooks = crate::rt::HOOK_CALLS.load(std::sync::atomic::Ordering::Relaxed);
+    if hooks > 0 {
+        ev["coverage"]["transfer_hook_executions"] = json!(hooks);
+    }
     if !fuzz_report.is_empty() {
         let fe: u64 = fuzz_report.iter().filter_map(|f| f["executions"].as_u64()).sum();
         ev["coverage"]["coverage_guided"] = json!(fuzz_report);
